@@ -656,10 +656,11 @@ func (e *c02) closing() {
 				for st, who := range statuses {
 					if st != "left" {
 						key := "C02 left-not-left"
-						if !good && relayed {
-							key = "C02 leave-relayed-as-join-by-pushpull"
-						} else if !good && flap {
+						if !good && flap {
+							// (a flapped observer also relays the kept status time to others)
 							key = "C02 leave-forgotten-after-flap"
+						} else if !good && relayed {
+							key = "C02 leave-relayed-as-join-by-pushpull"
 						}
 						if !good && !flap && !m.leaveHeardAny() {
 							continue
